@@ -4,7 +4,7 @@
    system only multiplies the result by the conversion factor of amount / time; the default state depends on the SI values of
    density and volume only. *)
 From Coq Require Import ZArith QArith Qcanon List Lia.
-From Verif Require Import Num NumFacts Units UnitsFacts System SystemFacts Grid Engine EngineBuild UnitsInvariance.
+From Verif Require Import Num NumFacts Units UnitsFacts System SystemFacts Grid Engine EngineFacts EngineBuild UnitsInvariance TrajectoryUnits.
 Open Scope Qc_scope.
 
 (* a bare number re-scaled together with the units declared around it denotes the same physical value; an explicit quantity
@@ -49,6 +49,26 @@ Theorem C04_factor_power : forall s t n d, factor s t (dim_scal n d) = Qcpowz (f
 Proof. exact factor_scal. Qed.
 Print Assumptions C04_factor_power.
 
+(* the whole deterministic trajectory: the same system stated in units t instead of s - every rate constant, diffusion coefficient,
+   cell edge, contact surface, distance, amount and the time step multiplied by the conversion factor of its dimension - has, for
+   every entry, the rate law of the original times the factor of amount/time, and after any number of Euler steps the state of the
+   original times the factor of amount: the trajectories are equal once expressed in common units (any network tables with
+   non-negative diffusion coefficients, grid or graph with positive cell edges) *)
+Theorem C04_rate_law_rescaled : forall (s t : usys) (T : etab), (forall sp e, 0 <= Dc T sp e) ->
+  forall G x i sp, wf_geom T G -> nC T = geom_cells G -> (forall k, (k < nC T)%nat -> 0 < edge_of G k) ->
+  (forall k, (k < nC T)%nat -> (Env T k < nE T)%nat) -> (i < nC T)%nat ->
+  rate_law (rescale_tables s t T) (rescale_geom s t G) (rescale_state s t x) i sp = rate_law T G x i sp * factor s t dim_rate.
+Proof. exact rate_law_rescaled. Qed.
+Print Assumptions C04_rate_law_rescaled.
+
+Theorem C04_trajectory_rescaled : forall (s t : usys) (T : etab), (forall sp e, 0 <= Dc T sp e) ->
+  forall G dt n x, wf_geom T G -> nC T = geom_cells G -> (forall k, (k < nC T)%nat -> 0 < edge_of G k) ->
+  (forall k, (k < nC T)%nat -> (Env T k < nE T)%nat) ->
+  euler_steps (rescale_tables s t T) (rescale_geom s t G) (dt * factor s t dim_time) n (rescale_state s t x)
+  = rescale_state s t (euler_steps T G dt n x).
+Proof. exact euler_steps_rescaled. Qed.
+Print Assumptions C04_trajectory_rescaled.
+
 (* non-vacuity (by computation): A + 2 B -> ..., k = 3 in (um, s, molecule), V = 8 um3, 4 and 6 molecules; the same in (nm, ms, mol) *)
 Example C04_example :
   let s := default_usys in let t := {| us := Nm; ut := Ms; uq := Mol |} in
@@ -56,4 +76,16 @@ Example C04_example :
   Qceqb (ma (QcZ 3 * factor s t (kdim 3)) (QcZ 8 * factor s t dim_volume) (map (fun p : Qc * Z => (fst p * factor s t dim_amount, snd p)) terms))
         (ma (QcZ 3) (QcZ 8) terms * factor s t dim_rate) = true
   /\ Qceqb (ma (QcZ 3) (QcZ 8) terms) 0 = false.
+Proof. vm_compute. split; reflexivity. Qed.
+
+(* ... and a 2-cell grid with A -> B (k = 2), D = 1 for A, three Euler steps, stated in (um, s, molecule) and in (nm, ms, mol) *)
+Definition ex4_T : etab := {| nS := 2; nR := 2; nE := 1; nC := 2; tk := [QcZ 2; 0]; tsub := [1; 0; 0; 1]%Z; tsto := [-1; 1; 1; -1]%Z;
+                              tD := [1; 0]; tenv := [0; 0]%nat; tchs := [false; false; false; false] |}.
+Definition ex4_G : geom := GGrid {| gw := 2; gh := 1; gd := 1; px := false; py := false; pz := false |} (QcZ 2).
+Example C04_trajectory_example :
+  let s := default_usys in let t := {| us := Nm; ut := Ms; uq := Mol |} in
+  let x := [QcZ 30; 0; QcZ 50; QcZ 4] in let dt := Q2Qc (1 # 16) in
+  forall2b Qceqb (euler_steps (rescale_tables s t ex4_T) (rescale_geom s t ex4_G) (dt * factor s t dim_time) 3 (rescale_state s t x))
+                 (rescale_state s t (euler_steps ex4_T ex4_G dt 3 x)) = true
+  /\ forall2b Qceqb (euler_steps ex4_T ex4_G dt 3 x) x = false.
 Proof. vm_compute. split; reflexivity. Qed.
